@@ -100,6 +100,8 @@ void File::copy_from(FILE* from, FILE* to)
 
 void File::write_entire_contents_to(FILE* file)
 {
+    // NOTE: rewind flushes what is still buffered but throws away any error in doing so.
+    fflush(m_file, "Error occurred writing to file");
     std::rewind(m_file);
     copy_from(m_file, file);
 }
@@ -216,6 +218,7 @@ bool File::get_line(std::string& line, NewLine* newline)
 
 std::string File::read_all_as_string()
 {
+    fflush(m_file, "Error occurred writing to file");
     std::rewind(m_file);
 
     std::string content;
